@@ -51,6 +51,26 @@ def metaId (kind : String) (line : List Nat) : Option (List Nat) :=
   let pfx := strBytes ("##" ++ kind ++ "=<ID=")
   if pfx.isPrefixOf line then some ((line.drop pfx.length).takeWhile (fun b => b ≠ 44 ∧ b ≠ 62)) else none
 
+/-- A FILTER / INFO / FORMAT definition in the one spelling that is modelled: `##FILTER=<ID=x,Description="…">`,
+    `##INFO=<ID=x,Number=…,Type=…,Description="…">`, the same for FORMAT; the FORMAT line of `GT` must declare
+    `Number=1,Type=String` (any other declaration is refused by the parser or changes how the values are read). Everything
+    else is "not modelled". -/
+def metaLineOk (l : List Nat) : Bool :=
+  let quoted := hasInfix (strBytes ",Description=\"") l && l.getLast? = some 62 && (l.dropLast).getLast? = some 34
+  if (strBytes "##FILTER=<ID=").isPrefixOf l then quoted
+  else if (strBytes "##FORMAT=<ID=GT,").isPrefixOf l then (strBytes "##FORMAT=<ID=GT,Number=1,Type=String,Description=\"").isPrefixOf l && quoted
+  else quoted && hasInfix (strBytes ",Number=") l && (hasInfix (strBytes ",Type=Integer,") l || hasInfix (strBytes ",Type=Float,") l ||
+    hasInfix (strBytes ",Type=String,") l || hasInfix (strBytes ",Type=Flag,") l || hasInfix (strBytes ",Type=Character,") l)
+
+/-- Any other `##` line: `##key=value` with a non-empty key and a non-empty value; a structured value `<…>` must start with
+    `<ID=` and end with `>`; a second `##fileformat` line is refused by the parser ("not modelled" here). -/
+def otherMetaOk (l : List Nat) : Bool :=
+  let body := l.drop 2
+  let key := body.takeWhile (· ≠ 61)
+  let value := (body.dropWhile (· ≠ 61)).drop 1
+  !key.isEmpty && !value.isEmpty && key.all (fun b => b ≠ 32 ∧ b ≠ 60) && key ≠ strBytes "fileformat" &&
+    (value.head? ≠ some 60 || ((strBytes "<ID=").isPrefixOf value && value.getLast? = some 62))
+
 structure VcfHeader where
   samples : List String
   contigs : List String           -- `##contig` IDs in order (BCF contig dictionary)
@@ -78,11 +98,13 @@ def parseVcfHeaderLines (lines : List (List Nat)) : Option (VcfHeader × List (L
             | some id => (asciiString id).bind (fun s => go fuel ls' (contigs ++ [s]) strings)
             | none =>
               match (metaId "FILTER" l).orElse (fun _ => (metaId "INFO" l).orElse (fun _ => metaId "FORMAT" l)) with
-              | some id => (asciiString id).bind (fun s => go fuel ls' contigs (if strings.contains s then strings else strings ++ [s]))
-              | none => go fuel ls' contigs strings
+              | some id =>
+                if !metaLineOk l then none else
+                (asciiString id).bind (fun s => go fuel ls' contigs (if strings.contains s then strings else strings ++ [s]))
+              | none => if otherMetaOk l then go fuel ls' contigs strings else none
         else if chromLinePrefix.isPrefixOf l then
           match ((splitBytes 9 (l.drop chromLinePrefix.length)).mapM asciiString) with
-          | some names => if names.any (· == "") then none else some (⟨names, contigs, strings⟩, ls')
+          | some names => if names.any (· == "") || !names.Nodup then none else some (⟨names, contigs, strings⟩, ls')
           | none => none
         else none
     go (rest.length + 1) rest [] ["PASS"]
@@ -103,26 +125,48 @@ def sampleGt (gtIdx : Option Nat) (field : List Nat) : Option GtRes :=
       | some f => some (classifyField f)
       | none => none
 
-/-- One record line. `none` = not modelled; `some (.corrupt ..)` = the parser rejects the record. The fixed fields are
-    accepted only in the plain spellings (`.` for ID / QUAL / FILTER or `PASS`, bases for REF / ALT); INFO is not
-    interpreted. -/
-def parseVcfRecord (line : List Nat) : Option Rec :=
+/-- FORMAT keys as the generators and ordinary files spell them: letters and digits. -/
+def formatKeyOk (k : List Nat) : Bool :=
+  !k.isEmpty && k.all (fun b => (65 ≤ b ∧ b ≤ 90) ∨ (97 ≤ b ∧ b ≤ 122) ∨ (48 ≤ b ∧ b ≤ 57))
+
+/-- `;`-separated entries with a repeat (ID, FILTER, the keys of INFO): the parser refuses the record. -/
+def hasDupEntry (entries : List (List Nat)) : Bool := !entries.Nodup
+
+/-- One record line of a file with `nSamples` sample columns. `none` = not modelled; `some (.corrupt ..)` = the parser rejects the
+    record. The fixed fields are accepted only in the plain spellings (`.` for ID / QUAL / FILTER or `PASS`, bases for REF / ALT),
+    except that a repeated entry in ID, FILTER or among the INFO keys, an empty INFO column, fewer sample columns than the header
+    declares, and a sample with more values than FORMAT keys are recognised as what the parser refuses. INFO values are not
+    interpreted (the generators write well-typed ones); sample columns beyond the declared ones are ignored, as the parser does. -/
+def parseVcfRecord (nSamples : Nat) (line : List Nat) : Option Rec :=
   match splitBytes 9 line with
-  | chrom :: pos :: id :: ref :: alt :: qual :: filter :: _info :: format :: samples =>
+  | chrom :: pos :: id :: ref :: alt :: qual :: filter :: info :: format :: samples =>
     match asciiString chrom with
     | none => none
     | some c =>
       if c == "" then none else
+      -- contig names of letters, digits, `_` `.` `-` only (symbols `<x>`, `*`, blanks, a leading `#`: not modelled)
+      if !c.toList.all (fun ch => ch.isAlphanum || ch == '_' || ch == '.' || ch == '-') then none else
       match bytesNat pos with
       | none => some (.corrupt c 0)
       | some p =>
         if samples.isEmpty then none else
+        if p < 1 then none else
+        if id ≠ [46] ∧ hasDupEntry (splitBytes 59 id) then some (.corrupt c p) else
+        if filter ≠ [46] ∧ hasDupEntry (splitBytes 59 filter) then some (.corrupt c p) else
+        if info.isEmpty ∨ (info ≠ [46] ∧ hasDupEntry ((splitBytes 59 info).map (fun f => f.takeWhile (· ≠ 61)))) then some (.corrupt c p) else
         let plain := id = [46] && isBases ref && (alt = [46] || (splitBytes 44 alt).all isBases) && qual = [46] &&
-          (filter = [46] || filter = strBytes "PASS") && p ≥ 1
+          (filter = [46] || filter = strBytes "PASS")
         if !plain then none else
         let keys := splitBytes 58 format
+        if !keys.all formatKeyOk then none else                              -- other key spellings: not modelled
+        if !keys.Nodup then some (.corrupt c p) else                         -- a repeated FORMAT key is refused
         let gtIdx := keys.idxOf? (strBytes "GT")
         if gtIdx.isSome && gtIdx ≠ some 0 then some (.corrupt c p) else     -- "GT must be the first key"
+        if samples.length < nSamples then some (.corrupt c p) else
+        let samples := samples.take nSamples
+        if samples.any (fun f => f ≠ [46] ∧ (splitBytes 58 f).length > keys.length) then some (.corrupt c p) else
+        -- the values of the other keys are typed by the header: only `.` and plain digits are modelled
+        if samples.any (fun f => f ≠ [46] ∧ ((splitBytes 58 f).drop (if gtIdx.isSome then 1 else 0)).any (fun v => v ≠ [46] ∧ (bytesNat v).isNone)) then none else
         match samples.mapM (sampleGt gtIdx) with
         | some gts => some (.gts c p gts)
         | none => some (.corrupt c p)
@@ -135,21 +179,21 @@ def parseVcfRecord (line : List Nat) : Option Rec :=
   | _ => none
 
 /-- Records up to and including the first corrupt one (reading stops there). -/
-def parseVcfRecords : List (List Nat) → Option (List Rec)
+def parseVcfRecords (nSamples : Nat) : List (List Nat) → Option (List Rec)
   | [] => some []
   | l :: ls =>
     if l.isEmpty then none else
-    match parseVcfRecord l with
+    match parseVcfRecord nSamples l with
     | none => none
     | some (.corrupt c p) => some [.corrupt c p]
-    | some r => (parseVcfRecords ls).map (r :: ·)
+    | some r => (parseVcfRecords nSamples ls).map (r :: ·)
 
 /-- Plain VCF text → call set. -/
 def vcfDecode (bytes : List Nat) : Option (List String × List Rec) :=
   if bytes.contains 13 then none else
   match parseVcfHeaderLines (splitLines bytes) with
   | none => none
-  | some (h, recLines) => (parseVcfRecords recLines).map (fun rs => (h.samples, rs))
+  | some (h, recLines) => (parseVcfRecords h.samples.length recLines).map (fun rs => (h.samples, rs))
 
 /-! ## BCF -/
 
@@ -197,10 +241,48 @@ def chunksOf (n : Nat) : Nat → List Nat → List (List Nat)
   | 0, _ => []
   | k + 1, l => l.take n :: chunksOf n k (l.drop n)
 
-/-- The per-sample block: `nFmt` fields, each `key (typed int) · descriptor · nSample × len values`; returns the GT
-    results when a field whose key names `GT` is present (int8 only), "all missing" when there is none. -/
-def bcfIndiv (gtKey : Option Nat) (nSample : Nat) : Nat → List Nat → Option (List GtRes)
-  | 0, _ => some (List.replicate nSample (.skipped .missing))
+/-- One typed value skipped: any count of int8 / int16 / int32 / float / char elements, or the untyped empty vector `0x00`. -/
+def bcfSkipTyped (l : List Nat) : Option (List Nat) :=
+  match bcfDescriptor l with
+  | none => none
+  | some (n, ty, rest) =>
+    if ty = 0 then (if n = 0 then some rest else none) else
+    match bcfTypeSize ty with
+    | none => none
+    | some sz => (takeN (n * sz) rest).map (·.2)
+
+/-- One typed string (type 7, ASCII; `0x07` is the missing / empty string): content and rest. -/
+def bcfTakeString (l : List Nat) : Option (List Nat × List Nat) :=
+  match bcfDescriptor l with
+  | some (n, 7, rest) => (takeN n rest).bind (fun p => if p.1.all (· < 128) then some p else none)
+  | _ => none
+
+/-- `k` allele strings, each a string of bases. -/
+def bcfSkipAlleles : Nat → List Nat → Option (List Nat)
+  | 0, l => some l
+  | k + 1, l => (bcfTakeString l).bind (fun p => if isBases p.1 then bcfSkipAlleles k p.2 else none)
+
+/-- `k` INFO entries: a typed integer key and one typed value each. -/
+def bcfSkipInfo : Nat → List Nat → Option (List Nat)
+  | 0, l => some l
+  | k + 1, l => (bcfTypedInt l).bind (fun p => (bcfSkipTyped p.2).bind (bcfSkipInfo k))
+
+/-- The variable part of the shared block (after its 24 fixed bytes): ID string, `nAllele` allele strings of bases, the FILTER
+    vector, `nInfo` INFO entries — and nothing else. -/
+def bcfSharedTailOk (nAllele nInfo : Nat) (tail : List Nat) : Bool :=
+  match (bcfTakeString tail).bind (fun p => bcfSkipAlleles nAllele p.2) with
+  | none => false
+  | some r =>
+    match (bcfSkipTyped r).bind (bcfSkipInfo nInfo) with
+    | some [] => true
+    | _ => false
+
+/-- The per-sample block: `nFmt` fields, each `key (typed int) · descriptor · nSample × len values`, and nothing else. `GT`, when
+    present, must be the first field (int8 only); the other fields must carry a defined key other than `PASS` and at least one
+    int8 / int16 / int32 / float / char value per sample (their values are not interpreted). Returns the GT results, "all missing"
+    when there is no GT field. `first` says whether the field at the head is the first one. -/
+def bcfIndivGo (gtKey : Option Nat) (nStrings nSample : Nat) (first : Bool) : Nat → List Nat → Option (Option (List GtRes))
+  | 0, l => if l.isEmpty then some none else none
   | nFmt + 1, l =>
     match bcfTypedInt l with
     | none => none
@@ -215,21 +297,33 @@ def bcfIndiv (gtKey : Option Nat) (nSample : Nat) : Nat → List Nat → Option 
           | none => none
           | some (block, rest) =>
             if some key = gtKey then
-              if ty ≠ 1 ∨ len = 0 then none else (chunksOf len nSample block).mapM bcfGtRes
-            else bcfIndiv gtKey nSample nFmt rest
+              if !first ∨ ty ≠ 1 ∨ len = 0 then none else
+              match (chunksOf len nSample block).mapM bcfGtRes, bcfIndivGo gtKey nStrings nSample false nFmt rest with
+              | some gts, some _ => some (some gts)
+              | _, _ => none
+            else
+              if key = 0 ∨ key ≥ nStrings ∨ len = 0 ∨ (ty = 7 ∧ block.any (· ≥ 128)) then none else
+              bcfIndivGo gtKey nStrings nSample false nFmt rest
 
-/-- One BCF record at the head of `l` (after the two length words). -/
+def bcfIndiv (gtKey : Option Nat) (nStrings nSample nFmt : Nat) (l : List Nat) : Option (List GtRes) :=
+  (bcfIndivGo gtKey nStrings nSample true nFmt l).map (fun r => r.getD (List.replicate nSample (.skipped .missing)))
+
+/-- One BCF record (the shared and the per-sample block, after the two length words). Fixed part of the shared block: CHROM,
+    POS, rlen (≥ 0), QUAL (only "missing" is modelled), n_info / n_allele (≥ 1), n_sample (must be the header's) / n_fmt. -/
 def bcfRecord (h : VcfHeader) (shared indiv : List Nat) : Option Rec :=
-  match shared with
-  | c0 :: c1 :: c2 :: c3 :: p0 :: p1 :: p2 :: p3 :: _ :: _ :: _ :: _ :: _ :: _ :: _ :: _ :: _ :: _ :: _ :: _ :: s0 :: s1 :: s2 :: f :: _ =>
+  match takeN 24 shared with
+  | some ([c0, c1, c2, c3, p0, p1, p2, p3, _, _, _, r3, q0, q1, q2, q3, i0, i1, a0, a1, s0, s1, s2, f], tail) =>
     let chrom := leNat [c0, c1, c2, c3]
     let pos := leNat [p0, p1, p2, p3]
     let nSample := leNat [s0, s1, s2]
-    if c3 ≥ 128 ∨ p3 ≥ 128 ∨ nSample ≠ h.samples.length then none else
+    let nAllele := leNat [a0, a1]
+    if c3 ≥ 128 ∨ p3 ≥ 128 ∨ r3 ≥ 128 ∨ nSample ≠ h.samples.length then none else
+    if [q0, q1, q2, q3] ≠ [0x01, 0x00, 0x80, 0x7f] ∨ nAllele = 0 ∨ pos ≥ 2 ^ 31 - 1 then none else
+    if !bcfSharedTailOk nAllele (leNat [i0, i1]) tail then none else
     match h.contigs[chrom]? with
     | none => none
     | some contig =>
-      (bcfIndiv (h.strings.idxOf? "GT") nSample f indiv).map (fun gts => Rec.gts contig (pos + 1) gts)
+      (bcfIndiv (h.strings.idxOf? "GT") h.strings.length nSample f indiv).map (fun gts => Rec.gts contig (pos + 1) gts)
   | _ => none
 
 def bcfRecords (h : VcfHeader) : Nat → List Nat → Option (List Rec)
